@@ -1,11 +1,13 @@
 package checks
 
 import (
+	"context"
 	"fmt"
 	"strings"
 
 	"github.com/ipfs/go-cid"
 	unixfsnode "github.com/ipfs/go-unixfsnode"
+	"github.com/ipfs/go-unixfsnode/file"
 	"github.com/ipld/go-ipld-prime/datamodel"
 	"github.com/ipld/go-ipld-prime/linking"
 	"github.com/ipld/go-ipld-prime/traversal"
@@ -28,7 +30,7 @@ func (c06) Technique() string {
 	return "deterministic simulation with storage fault injection: fault-free run compares the set of blocks requested at the simulated store with the entity's block set from an independent model; then an exhaustive single-block fault sweep (not-found, I/O error at open, I/O error mid-stream) over every block of the entity, k-th-load-fails for every k, and seeded 2-3 block subsets must each end in an error"
 }
 func (c06) Rule() string {
-	return "one evaluation = one execution of one access path (unixfs-preload reifier on the loaded root; WalkMatching with MatchUnixFSPreloadSelector; WalkMatching with MatchUnixFSEntitySelector + BytesConsumingMatcher; each optionally reached through UnixFSPathSelectorBuilder from a parent directory; link system with or without NodeReifier) on a file, sharded or plain directory under one fault plan; per seeded entity the plan space {every entity block} x {3 kinds} + {the same with well-known error values} + {k-th load once, strided above ~3M loads} + {store goes away at load k} + block subsets + {access twice on one root object with a block removed in between} is enumerated; non-trivial = entity has >= 2 blocks and (fault-free) there are non-entity blocks reachable from it, or (faulted) the fault fired; distinct = distinct (access path, fault kind, outcome, seam event sequence) signature"
+	return "one evaluation = one execution of one access path (unixfs-preload reifier on the loaded root; WalkMatching with MatchUnixFSPreloadSelector; WalkMatching with MatchUnixFSEntitySelector + BytesConsumingMatcher; for files also file.NewUnixFSFileWithPreload called directly on what the link system loaded; each optionally reached through UnixFSPathSelectorBuilder from a parent directory; link system with or without NodeReifier) on a file, sharded or plain directory under one fault plan; per seeded entity the plan space {every entity block} x {3 kinds} + {the same with well-known error values} + {k-th load once, strided above ~3M loads} + {store goes away at load k} + block subsets + {access twice on one root object with a block removed in between} is enumerated; non-trivial = entity has >= 2 blocks and (fault-free) there are non-entity blocks reachable from it, or (faulted) the fault fired; distinct = distinct (access path, fault kind, outcome, seam event sequence) signature"
 }
 func (c06) Assumptions() []string {
 	return []string{
@@ -70,9 +72,12 @@ func (c06) Run(ts *tape.Set, tier Tier) *Result {
 	kindPick := shape.Pick(4, 4, 1)
 	isDir := kindPick == 1
 	isPlainDir := kindPick == 2
-	access := shape.Intn(3) // 0 preload reifier, 1 preload selector, 2 entity selector
+	access := shape.Intn(4) // 0 preload reifier, 1 preload selector, 2 entity selector, 3 (files) the preloading constructor called directly
+	if access == 3 && kindPick != 0 {
+		access = 0
+	}
 	viaPath := shape.Intn(3) == 2
-	if access == 0 {
+	if access == 0 || access == 3 {
 		viaPath = false
 	}
 	planSeed := shape.Raw()
@@ -191,7 +196,7 @@ func (c06) Run(ts *tape.Set, tier Tier) *Result {
 		pathBlocks[parent.KeyString()] = true
 		res.probe("via-path-selector")
 	}
-	accessName := []string{"preload-reifier", "preload-selector", "entity-selector"}[access]
+	accessName := []string{"preload-reifier", "preload-selector", "entity-selector", "preload-constructor"}[access]
 	res.probe(accessName)
 	sc.Access = accessName
 	if viaPath {
@@ -217,6 +222,13 @@ func (c06) Run(ts *tape.Set, tier Tier) *Result {
 				switch access {
 				case 0:
 					_, e := w.LS.KnownReifiers["unixfs-preload"](linking.LinkContext{}, rn, &w.LS)
+					return e
+				case 3:
+					// file.NewUnixFSFileWithPreload is exported and documented as
+					// the preloading view's implementation; a caller that knows it
+					// has a file hands it whatever its link system loaded (under
+					// NodeReifier = Reify that is an already reified file node)
+					_, e := file.NewUnixFSFileWithPreload(context.Background(), rn, &w.LS)
 					return e
 				default:
 					target := unixfsnode.MatchUnixFSPreloadSelector
@@ -336,11 +348,18 @@ func (c06) Run(ts *tape.Set, tier Tier) *Result {
 		if b.Equals(entity) && !viaPath {
 			continue
 		}
-		fl := 1 + i%6
+		fl := 1 + i%7
 		if fl == 4 && (viaPath || b.Equals(entity)) {
 			fl = 1 // SkipMe only on blocks that go-unixfsnode itself loads
 		}
-		plans = append(plans, faultPlan{kind: kinds[i%3], targets: []cid.Cid{b}, kth: -1, after: 11 * i, flavour: fl})
+		kd := kinds[i%3]
+		if fl == 5 {
+			// a bare io.EOF is a fault only when the store answers the OPEN with
+			// it; in mid-stream it is a truncation (caught by the hash check) and
+			// on an empty block it is simply the complete block
+			kd = store.EIOOpen
+		}
+		plans = append(plans, faultPlan{kind: kd, targets: []cid.Cid{b}, kth: -1, after: 11 * i, flavour: fl})
 	}
 	// every k when the sweep stays within ~3M block loads per run, otherwise
 	// evenly strided (a de-duplicated DAG can have thousands of loads for a
